@@ -18,6 +18,7 @@ import Proofs.VdrRefuse
 import Proofs.VdrFinal
 import Proofs.VdrFs
 import Proofs.VdrHyp
+import Proofs.VdrCover
 import Martian.VdrWalk
 import Proofs.VdrWalk
 
@@ -216,15 +217,18 @@ it; no argument without holders): after ANY history in which every post node
 has completed, the complete-state pass (`Pipestance.VDRKill`) makes the fork
 final and every entry left below its files/ directories is referenced (equal,
 ancestor or descendant; for a symbolic link also through what it points to)
-by an argument the top level or a retain holds. -/
-theorem reclaims_all_unreferenced (c : Cfg) (s0 : St) (evs : List Ev) (ok : CfgOK c s0)
-    (wf : DiskWF s0.disk) (fr : Fresh s0) (h0 : s0.report.count = 0 ∧ s0.report.size = 0)
+by an argument the top level or a retain holds.  For ANY shape of the disk:
+no `DiskWF` (nested links, temp entries anywhere) and no assumption on the
+report — the proof keeps only that every entry below files/ has a cache entry
+describing it (`Covered`, Proofs/VdrCover.lean), not the one-to-one alignment
+the accounting needs. -/
+theorem reclaims_all_unreferenced (c : Cfg) (s0 : St) (evs : List Ev) (ok : CfgOK c s0) (fr : Fresh s0)
     (hv : c.volatile = true) (bk : BK s0) (hf : s0.final = false)
     (hdone : ∀ p ∈ s0.postNodes, p.1 ∈ (run c s0 evs).doneNodes) :
     (run c s0 (evs ++ [.kill])).final = true ∧
     ∀ d ∈ (run c s0 (evs ++ [.kill])).disk, isTmp d.kind = false →
       ∃ a, Holds s0 a none ∧ refsN c a (d.path :: d.alts) = true := by
-  obtain ⟨x, r⟩ := joint_run ok wf hv bk (XInv.init s0 fr h0) (RInv.init c s0 fr bk hf) evs
+  obtain ⟨v, r⟩ := VR.run ok hv bk (VInv.init s0 fr) (RInv.init c s0 fr bk hf) evs
   have hrun : run c s0 (evs ++ [.kill]) = kill c (run c s0 evs) := by
     unfold run; rw [List.foldl_append]; rfl
   rw [hrun]
@@ -233,7 +237,7 @@ theorem reclaims_all_unreferenced (c : Cfg) (s0 : St) (evs : List Ev) (ok : CfgO
     intro p hp
     obtain ⟨q, hq, e⟩ := r.sh.keys p hp
     rw [← e]; exact hdone q hq
-  exact ⟨hfin, (r.kill ok wf hv x).fin hfin⟩
+  exact ⟨hfin, (VR.kill hv v r).2.fin hfin⟩
 
 /-- **tmp_gone_when_final.**  For every configuration and interleaving: once
 the fork's final report is written, no entry of the split / chunk / join temp
@@ -377,18 +381,17 @@ tables, after any history in which its post nodes completed, the
 complete-state pass leaves only what the top level or a retain references. -/
 theorem reclaims_all_unreferenced_built (tr : PTree) (w : wfOps [] [] (opsOf tr) = true) (p : Node) (t : Tab)
     (h : (p, t) ∈ build (opsOf tr)) (c : Cfg) (disk : List DiskEnt) (evs : List Ev)
-    (ok : CfgOK c (t.st disk)) (wf : DiskWF disk) (hv : c.volatile = true)
+    (ok : CfgOK c (t.st disk)) (hv : c.volatile = true)
     (hdone : ∀ q ∈ t.postNodes, q.1 ∈ (run c (t.st disk) evs).doneNodes) :
     (run c (t.st disk) (evs ++ [.kill])).final = true ∧
     ∀ d ∈ (run c (t.st disk) (evs ++ [.kill])).disk, isTmp d.kind = false →
       ∃ a, Holds (t.st disk) a none ∧ refsN c a (d.path :: d.alts) = true :=
-  reclaims_all_unreferenced c (t.st disk) evs ok wf ⟨rfl, rfl⟩ ⟨rfl, rfl⟩ hv ((build_bk w h).st disk) rfl hdone
+  reclaims_all_unreferenced c (t.st disk) evs ok ⟨rfl, rfl⟩ hv ((build_bk w h).st disk) rfl hdone
 
 theorem clone_after_history_consistent (c : Cfg) (s0 : St) (evs : List Ev) (ok : CfgOK c s0)
-    (wf : DiskWF s0.disk) (fr : Fresh s0) (h0 : s0.report.count = 0 ∧ s0.report.size = 0)
-    (hv : c.volatile = true) (bk : BK s0) (hf : s0.final = false) (disk : List DiskEnt) :
+    (fr : Fresh s0) (hv : c.volatile = true) (bk : BK s0) (hf : s0.final = false) (disk : List DiskEnt) :
     BK (cloneFork (run c s0 evs) disk) := by
-  obtain ⟨_, r⟩ := joint_run ok wf hv bk (XInv.init s0 fr h0) (RInv.init c s0 fr bk hf) evs
+  obtain ⟨_, r⟩ := VR.run ok hv bk (VInv.init s0 fr) (RInv.init c s0 fr bk hf) evs
   exact cloneFork_bk r.bk disk
 
 /-! ### definitional unfoldings (documentation of the model, not guarantees) -/
@@ -476,6 +479,20 @@ example :
     (run exCfg exSt [.removeEmpty, .cacheMap, .kill, .restart, .nodeDone "C", .kill]).disk.map (·.path) =
       ["/p/files/a.txt".toList] ∧
     (cloneFork (run exCfg exSt [.removeEmpty, .cacheMap, .kill]) []).postNodes = [("C", ["a", "b"])] := by
+  decide
+
+/-- reclaim on a disk that violates `LinksTop` (a link nested below an unreferenced directory,
+pointing to a named file — the disk of `report_undercounts_nested_link`): final, and what is left
+is referenced -/
+example :
+    let c : Cfg := { volatile := true, strict := true, splits := false
+                     argNames := [("a", ["/p/f/t".toList])], argFiles := [("a", ["/p/f/t".toList])]
+                     initArgs := [("a", [none])] }
+    let s : St := { fileArgs := [("a", [none])], postNodes := [],
+                    disk := [⟨"/p/f/t".toList, 1, .out, [], 0⟩, ⟨"/p/f/sub".toList, 4096, .out, [], 0⟩,
+                             ⟨"/p/f/sub/l".toList, 6, .out, ["/p/f/t".toList], 0⟩] }
+    linksTopB s.disk = false ∧ cfgOKB c s = true ∧
+    (run c s [.cacheMap, .kill]).final = true ∧ (run c s [.cacheMap, .kill]).disk.map (·.path) = ["/p/f/t".toList] := by
   decide
 
 /-- a refused fork: the history of Props/C04.lean's example without its kill passes removes nothing -/
